@@ -325,11 +325,15 @@ func writeReplay(e *vc.Engine, prop, dir string, r vc.Result, scratch string) (s
 	if len(name) > 150 {
 		name = name[:150]
 	}
-	if rp, ok := vc.TryReplay(e, r, dir, name, scratch); ok {
+	rp, ok := vc.TryReplay(e, r, dir, name, scratch)
+	if ok {
 		return rp, true
 	}
 	file := filepath.Join(dir, name+".txt")
 	var sb strings.Builder
+	if rp != "" {
+		fmt.Fprintf(&sb, "candidate input derived from the model (did not reproduce a panic when run): %s\n", rp)
+	}
 	fmt.Fprintf(&sb, "property: %s\nfailed obligation: %s\nkind: %s\nfunction: %s\nsource: %s\nexpected: %s\nsolver verdict: %s (%s, %.2fs)\n\n", prop, r.O.Name, r.O.Kind, r.O.Fn, r.O.Pos, r.O.Expect, r.V.Status, r.V.Solver, r.V.Seconds)
 	sb.WriteString("solver output:\n" + r.V.Output + "\n")
 	if r.V.Script != "" {
